@@ -5,7 +5,7 @@ CONSTANTS
   MaxTail = 4
   ElemTail = 1
   NestTail = 2
-  DeepTail = 1
+  DeepTail = 2
   Nums = {1}
   MaxOperands = 1
   WithNeg = FALSE
